@@ -188,6 +188,12 @@ def run_case(case, prop) -> Dict[str, Any]:
                     "detail": {"outcome": list(oc), "tb": (r.tb or "")[-700:]}}, hd, sp)
         else:
             out["completed"] += 1
+            # the exact step set (C02's oracle) also holds with asynchronous requests
+            from ..oracles import core as ocore
+            from ..refmodel import RM
+            A = ocore.analyse(r.hist, RM(sc), oc, sc["config"])
+            for v in A.viol.get("C02", []):
+                report({"kind": "step_set_wrong", "features": {"c02": v["kind"]}, "detail": dict(v)}, hd, sp)
     out["sample"] = {"sims": [(s["sid"], s["type"], s["transport"], s["beh"].get("step_sizes"),
                                s["beh"].get("async_calls")) for s in sc["sims"]],
                      "until": sc["until"], "illegal": ill}
